@@ -26,9 +26,15 @@ Flags == {"M", "O"}
 Faults == {"none", "dup-ident", "dup-enum-name", "dup-enum-value", "dangling-ref"}
 
 Init == kind \in {"CHOICE", "SET", "SEQUENCE"} /\ comps = <<>> /\ tagging = "" /\ fault = "none" /\ phase = "build" /\ l = 0
+\* DEFAULT is offered for the SEQUENCE components whose type has an obvious default value
+DefaultOf(t) == LET r == IF t.k = "TAGGED" THEN t.t ELSE t IN
+                CASE r.k = "INTEGER" -> <<IOfInt(0)>> [] r.k = "BOOLEAN" -> <<TRUE>> [] OTHER -> <<>>
 AddComponent == /\ phase = "build" /\ Len(comps) < MaxComps
-                /\ \E t \in Palette : \E o \in (IF kind = "CHOICE" THEN {"M"} ELSE Flags) :
-                      comps' = Append(comps, Comp("c" \o ToString(Len(comps) + 1), t, o))
+                /\ \E t \in Palette :
+                     \/ \E o \in (IF kind = "CHOICE" THEN {"M"} ELSE Flags) :
+                          comps' = Append(comps, Comp("c" \o ToString(Len(comps) + 1), t, o))
+                     \/ /\ kind = "SEQUENCE" /\ DefaultOf(t) # <<>>
+                        /\ comps' = Append(comps, CompD("c" \o ToString(Len(comps) + 1), t, DefaultOf(t)[1]))
                 /\ UNCHANGED <<kind, tagging, fault, phase, l>>
 SetTagging == /\ phase = "build" /\ Len(comps) >= 2
               /\ tagging' \in {"EXPLICIT", "IMPLICIT", "AUTOMATIC"} /\ phase' = "tagged"
@@ -40,18 +46,19 @@ Next == AddComponent \/ SetTagging \/ InjectFault
 
 \* the module a finished state denotes
 Faulty(cs) == CASE fault = "dup-ident" -> [cs EXCEPT ![2] = [cs[2] EXCEPT !.n = cs[1].n]]
-                [] fault = "dangling-ref" -> [cs EXCEPT ![Len(cs)] = [cs[Len(cs)] EXCEPT !.t = TRef("Nowhere")]]
+                [] fault = "dangling-ref" -> [cs EXCEPT ![Len(cs)] = Comp(cs[Len(cs)].n, TRef("Nowhere"), "M")]
                 [] OTHER -> cs
 EnumDef == CASE fault = "dup-enum-name" -> TEnum(<<EItem("a", 0), EItem("b", 1), EItem("a", 2)>>, FALSE, <<>>)
              [] fault = "dup-enum-value" -> TEnum(<<EItem("a", 0), EItem("b", 1), EItem("c", 1)>>, FALSE, <<>>)
              [] OTHER -> TEnum(<<EItem("a", 0), EItem("b", 1)>>, FALSE, <<>>)
 TheModule ==
   [name |-> "LG", tagging |-> tagging,
-   defs |-> << [n |-> "CIB", t |-> TChoice(<<Comp("i", Int0, "M"), Comp("b", TBool, "M")>>, FALSE, <<>>)],
+   \* TOP comes first: the types it refers to are defined after it
+   defs |-> << [n |-> "TOP", t |-> [k |-> kind, comps |-> Faulty(comps), ext |-> FALSE, adds |-> <<>>]],
+               [n |-> "CIB", t |-> TChoice(<<Comp("i", Int0, "M"), Comp("b", TBool, "M")>>, FALSE, <<>>)],
                [n |-> "CTT", t |-> TChoice(<<Comp("i", TTag("C", 0, "D", Int0), "M"), Comp("b", TTag("C", 1, "D", TBool), "M")>>, FALSE, <<>>)],
                [n |-> "RI", t |-> Int0],
-               [n |-> "EN", t |-> EnumDef],
-               [n |-> "TOP", t |-> [k |-> kind, comps |-> Faulty(comps), ext |-> FALSE, adds |-> <<>>]] >>]
+               [n |-> "EN", t |-> EnumDef] >>]
 \* AUTOMATIC tagging makes CIB / CTT themselves automatically tagged (CIB gets [0],[1]; CTT is tagged already)
 Export == phase = "done" => PrintT(<<"SCN", ToJson([mod |-> TheModule, fault |-> fault, legal |-> Legal(TheModule)])>>)
 \* both verdicts must occur (vacuity guard, checked by the glue on the exported set)
